@@ -114,6 +114,38 @@ func c20APISurface() ([]apiFunc, error) {
 			}
 		}
 	}
+	// the method set of Sample (by name): an interface all of whose methods Sample has (TTestSample, the
+	// anonymous interface of BandwidthScott/Silverman, ...) is a parameter "taking a Sample"
+	sampleMethods := map[string]bool{}
+	for _, fo := range files {
+		for _, decl := range fo.f.Decls {
+			if fd, ok := decl.(*ast.FuncDecl); ok && fd.Recv != nil && len(fd.Recv.List) == 1 && fo.pkg == "stats" {
+				rt := fd.Recv.List[0].Type
+				if st, ok := rt.(*ast.StarExpr); ok {
+					rt = st.X
+				}
+				if id, ok := rt.(*ast.Ident); ok && id.Name == "Sample" {
+					sampleMethods[fd.Name.Name] = true
+				}
+			}
+		}
+	}
+	sampleIface := func(u *ast.InterfaceType) bool {
+		if u.Methods == nil || len(u.Methods.List) == 0 {
+			return false
+		}
+		for _, m := range u.Methods.List {
+			if len(m.Names) == 0 {
+				return false
+			}
+			for _, n := range m.Names {
+				if !sampleMethods[n.Name] {
+					return false
+				}
+			}
+		}
+		return true
+	}
 	// is the type expression (seen from package pkg) a slice, Sample, graph or distribution?
 	var inDomain func(pkg string, e ast.Expr, depth int) string
 	inDomain = func(pkg string, e ast.Expr, depth int) string {
@@ -132,6 +164,18 @@ func c20APISurface() ([]apiFunc, error) {
 			return inDomain(pkg, t.X, depth+1)
 		case *ast.ParenExpr:
 			return inDomain(pkg, t.X, depth+1)
+		case *ast.FuncType: // a callback or returned closure that takes a slice, Sample, graph or distribution
+			if t.Params != nil {
+				for _, p := range t.Params.List {
+					if w := inDomain(pkg, p.Type, depth+1); w != "" {
+						return "func taking a " + w
+					}
+				}
+			}
+		case *ast.InterfaceType:
+			if pkg == "stats" && sampleIface(t) {
+				return "interface satisfied by Sample"
+			}
 		case *ast.SelectorExpr:
 			if id, ok := t.X.(*ast.Ident); ok {
 				return inDomain(id.Name, ast.NewIdent(t.Sel.Name), depth+1)
@@ -147,6 +191,9 @@ func c20APISurface() ([]apiFunc, error) {
 			}
 			if strings.HasSuffix(name, "Dist") || name == "KDE" || name == "DistCommon" {
 				return "distribution " + name
+			}
+			if u, ok := ti.spec.Type.(*ast.InterfaceType); ok && ti.pkg == "stats" && sampleIface(u) {
+				return "interface " + name + " satisfied by Sample"
 			}
 			if strings.HasPrefix(ti.pkg, "graph") {
 				switch u := ti.spec.Type.(type) {
@@ -209,6 +256,16 @@ func c20APISurface() ([]apiFunc, error) {
 					if w := inDomain(fo.pkg, p.Type, 0); w != "" {
 						why = "parameter: " + w
 						break
+					}
+				}
+			}
+			if why == "" && fd.Type.Results != nil { // a returned closure that takes a slice, Sample, graph or distribution
+				for _, p := range fd.Type.Results.List {
+					if ft, ok := p.Type.(*ast.FuncType); ok {
+						if w := inDomain(fo.pkg, ft, 0); w != "" {
+							why = "result: " + w
+							break
+						}
 					}
 				}
 			}
